@@ -12,6 +12,8 @@ import CamVerif.Proofs.C12Order
 import CamVerif.Proofs.C12Stop
 import CamVerif.Proofs.C12Keep
 import CamVerif.Proofs.C12Intact
+import CamVerif.Proofs.C12Bytes
+import CamVerif.Proofs.C12Frames
 namespace CamVerif.C12
 open CamVerif CamVerif.StreamLoop
 
@@ -100,52 +102,30 @@ private structure Inv (P : Params) (A : Assembler) (script : List Item) (s : Sta
   keep : KeepUp P s
   seg : Seg P script s
   asmd : Asmd A s
+  contig : Contig P s
 
 private theorem reach_inv {P : Params} {A : Assembler} {script : List Item} {s : State}
     (h : Reach P A script s) : Inv P A script s := by
   induction h with
   | init =>
     exact ⟨PoolOK_init P, Sizes_init P, ReuseOK_init P, Own_init P, Order_init P, CtlOK_init P,
-      by simp [init], by simp [PendOwn, init], KeepUp_init P, Seg_init P script, Asmd_init P A⟩
+      by simp [init], by simp [PendOwn, init], KeepUp_init P, Seg_init P script, Asmd_init P A, Contig_init P⟩
   | step _ hs ih =>
     exact ⟨PoolOK_step ih.pool hs, Sizes_step ih.pool ih.sizes hs, ReuseOK_step ih.reuse hs,
       Own_step ih.pool ih.reuse ih.own hs, Order_step ih.pool ih.order hs, CtlOK_step ih.ctl hs,
       pend_le_step ih.pool ih.pend hs, PendOwn_step ih.pool ih.pown hs,
       KeepUp_step ih.order ih.keep hs, Seg_step ih.pool ih.seg hs,
-      Asmd_step ih.pool ih.sizes ih.asmd hs⟩
+      Asmd_step ih.pool ih.sizes ih.asmd hs, Contig_step ih.pool ih.sizes ih.contig hs⟩
 
 /-! ## 1. frames_intact -/
 
-/-- The packets of one frame in the programmed layout: leader, the payload cut at the transfer
-boundaries (every payload transfer but the last completely filled), trailer. -/
-structure FramePackets (P : Params) (parts : List Bytes) : Prop where
-  len : parts.length = P.T
-  full : ∀ i (h : i + 1 < P.payloadSlots.length) (h' : i + 1 < parts.length),
-    parts[i + 1].length = (P.payloadSlots[i]'(by omega)).len
-
-/-- **ConformingFraming**: the device sends frame after frame, each as its own leader, payload in
-the programmed layout, trailer. -/
-def ConformingFraming (P : Params) (script : List Item) : Prop :=
-  ∃ frames : List (List Bytes), (∀ f ∈ frames, FramePackets P f) ∧
-    script = (frames.map (fun f => f.map Item.data)).flatten
-
-/-- payload packets of a frame: everything between leader and trailer -/
-def middle (parts : List Bytes) : List Bytes := (parts.drop 1).dropLast
-
-/-- FULL statement of frames_intact (kept as a checked `Prop`; the part proved below is
-`frames_intact_segment`; what is missing is the conclusion about the payload BUFFER —
-`buf.take read = payload packets concatenated`, `read = their total length` — which the trace
-acceptance checks by digest on every delivered payload).  Under conforming framing every enqueued `Ok`
-payload whose segment starts at a frame boundary was built by `A` from exactly that frame's leader
-packet, trailer packet and a buffer whose first `read` bytes are that frame's payload. -/
-def C12_frames_intact_full : Prop :=
-  ∀ (P : Params) (A : Assembler) (script : List Item) (s : State),
-    Reach P A script s → ConformingFraming P script →
-    ∀ m ∈ s.sentLog, m.start % P.T = 0 →
-      ∃ leader trailer : Bytes, m.parts.head? = some leader ∧ m.parts.getLast? = some trailer ∧
-        m.read = ((middle m.parts).map List.length).sum ∧
-        m.buf.bytes.take m.read = (middle m.parts).flatten ∧
-        A leader trailer m.buf.bytes m.read = .built ⟨m.valid, m.info⟩
+/-- **ConformingFraming**: the device sends frame after frame, each as `T` bulk packets — its own
+leader, its payload cut at the programmed transfer boundaries, its own trailer — and nothing else
+(no transfer faults in the script; timeouts, failed submits and a slow receiver are still
+arbitrary).  How full the payload packets are is NOT assumed: the loop itself rejects a frame
+whose packets leave a gap (`payload_has_gap`). -/
+def ConformingFraming (P : Params) (script : List Item) (frames : List (List Bytes)) : Prop :=
+  (∀ f ∈ frames, f.length = P.T) ∧ script = (frames.map (fun f => f.map Item.data)).flatten
 
 /-- **frames_intact (segment form, proved)**: for every stream layout, device script, assembler
 and schedule, every `Ok` payload ever enqueued
@@ -167,6 +147,103 @@ theorem frames_intact_segment (P : Params) (A : Assembler) (script : List Item) 
   intro m hm
   have hi := reach_inv h
   exact ⟨(hi.seg.sent m hm).1, (hi.seg.sent m hm).2, hi.asmd.sent m hm⟩
+
+/-- **frames_intact (buffer half)**: for every layout, script, assembler and schedule, the
+buffer of every enqueued `Ok` payload starts with exactly the payload packets of its segment
+(everything between its first and last packet), concatenated without gap or stale byte, and
+`read_payload_size` is their total length.  (The assembler only accepts `valid ≤ read`, C11.) -/
+theorem frames_intact_bytes (P : Params) (A : Assembler) (script : List Item) (s : State)
+    (h : Reach P A script s) :
+    ∀ m ∈ s.sentLog, m.read = bsum (middle m.parts) ∧
+      m.buf.bytes.take m.read = (middle m.parts).flatten := by
+  intro m hm
+  exact (reach_inv h).contig.sent m hm
+
+private def leaderItem (isLeader : Bytes → Prop) : Item → Prop
+  | .data b => isLeader b
+  | .fault _ => False
+
+/-- **frames_intact** (full statement): let the device conform (`ConformingFraming`), let the
+parse/build function accept only leader bytes that are a leader (`hA`; the real one checks the
+leader magic, C11) and let no other packet of a frame look like a leader (`hL`).  Then under EVERY
+schedule — any timeouts, failed submits, stop times, receiver pace, channel capacity — every `Ok`
+payload ever enqueued is exactly ONE frame `q` the device sent: it was assembled from that
+frame's `T` packets and no others (`start = q·T`, `parts = frames[q]`), its buffer starts with
+that frame's payload bytes in order, `read_payload_size` is their length, and its valid size and
+all other fields are what the parse/build function returns for that frame's own leader packet and
+own trailer packet.  Never a mixture of two frames. -/
+theorem frames_intact (P : Params) (A : Assembler) (script : List Item) (frames : List (List Bytes))
+    (isLeader : Bytes → Prop) (hconf : ConformingFraming P script frames)
+    (hA : ∀ lb tb buf r b, A lb tb buf r = .built b → isLeader lb)
+    (hL : ∀ f ∈ frames, ∀ i (h : i < f.length), isLeader f[i] → i = 0)
+    (s : State) (h : Reach P A script s) :
+    ∀ m ∈ s.sentLog, ∃ q, ∃ hq : q < frames.length,
+      m.start = q * P.T ∧ m.parts = frames[q] ∧
+      m.read = bsum (middle frames[q]) ∧
+      m.buf.bytes.take m.read = (middle frames[q]).flatten ∧
+      ∃ leader trailer, frames[q].head? = some leader ∧ frames[q].getLast? = some trailer ∧
+        A leader trailer m.buf.bytes m.read = .built ⟨m.valid, m.info⟩ := by
+  intro m hm
+  have hi := reach_inv h
+  obtain ⟨hplen, hseg⟩ := hi.seg.sent m hm
+  obtain ⟨lb, tb, hhead, hlast, hbuilt⟩ := hi.asmd.sent m hm
+  obtain ⟨hread, hbytes⟩ := hi.contig.sent m hm
+  obtain ⟨hlen, hscript⟩ := hconf
+  have hT := T_ge_two P
+  have hlead := hA _ _ _ _ _ hbuilt
+  -- the script as blocks of items
+  let IL := frames.map (fun f => f.map Item.data)
+  have hIL : ∀ f ∈ IL, f.length = P.T := by
+    intro f hf
+    simp only [IL, List.mem_map] at hf
+    obtain ⟨g, hg, rfl⟩ := hf
+    simp [hlen g hg]
+  have hILp : ∀ f ∈ IL, ∀ i (h : i < f.length), leaderItem isLeader f[i] → i = 0 := by
+    intro f hf i hi' hp
+    simp only [IL, List.mem_map] at hf
+    obtain ⟨g, hg, rfl⟩ := hf
+    have hig : i < g.length := by simpa using hi'
+    simp only [List.getElem_map, leaderItem] at hp
+    exact hL g hg i hig hp
+  -- the first packet of the segment is the script item at `start`
+  have h0 : script[m.start]? = some (Item.data lb) := by
+    have e1 : ((script.drop m.start).take P.T)[0]? = (m.parts.map Item.data)[0]? := by rw [hseg]
+    rw [List.getElem?_take_of_lt (by omega), List.getElem?_drop, Nat.add_zero] at e1
+    rw [e1]
+    cases hp : m.parts with
+    | nil => rw [hp] at hhead; cases hhead
+    | cons x xs => rw [hp] at hhead; simp only [List.head?_cons, Option.some.injEq] at hhead; simp [hhead]
+  obtain ⟨q, hq, hql⟩ := boundary_of_head P.T (leaderItem isLeader) IL hIL hILp m.start (Item.data lb)
+    (by rw [← hscript]; exact h0) hlead
+  have hqf : q < frames.length := by simpa [IL] using hql
+  have hblock := block_at P.T IL hIL q hql
+  rw [← hscript, ← hq, hseg] at hblock
+  have hparts : m.parts = frames[q] := by
+    have : m.parts.map Item.data = (frames[q]).map Item.data := by
+      rw [hblock]; simp [IL]
+    exact (List.map_inj_right (fun a b hab => by injection hab)).mp this
+  refine ⟨q, hqf, hq, hparts, ?_, ?_, lb, tb, ?_, ?_, hbuilt⟩
+  · rw [← hparts]; exact hread
+  · rw [← hparts]; exact hbytes
+  · rw [← hparts]; exact hhead
+  · rw [← hparts]; exact hlast
+
+/-- the example script is conforming: two frames of four packets -/
+def exFrames : List (List Bytes) :=
+  [[[1, 2, 3, 4], [10, 11], [12], [5, 6, 7, 8]], [[1, 2, 3, 4], [20, 21], [22], [5, 6, 7, 9]]]
+
+example : ConformingFraming exP exScript exFrames := by
+  refine ⟨by decide, by decide⟩
+
+/-- non-vacuity of the hypotheses of `frames_intact`: "is a leader" = starts with byte 1 -/
+example : (∀ lb tb buf r b, (fun lb _ _ read => if lb.head? = some (1 : UInt8) then Asm.built ⟨read, 7⟩ else .leaderErr : Assembler)
+      lb tb buf r = .built b → lb.head? = some 1) ∧
+    (∀ f ∈ exFrames, ∀ i (h : i < f.length), (f[i]).head? = some (1 : UInt8) → i = 0) := by
+  refine ⟨?_, by decide⟩
+  intro lb tb buf r b hb
+  by_cases h : lb.head? = some (1 : UInt8)
+  · exact h
+  · simp [h] at hb
 
 /-- non-vacuity: two payloads enqueued from the segments starting at 0 and 4 (= T) -/
 example : ∃ s, Reach exP exA exScript s ∧
@@ -361,7 +438,7 @@ theorem stop_bounded (P : Params) (A : Assembler) (script : List Item) (s s' : S
     (hrun : run P A script s as = some s') :
     countLoop as + phi P s' ≤ phi P s ∧ phi P s ≤ stopBound P ∧
     s'.ctl ≠ .running ∧
-    (s'.pc = .exited → s'.ctl = .stopOk) ∧
+    (s'.pc = .exited → s'.ctl = .stopOk ∨ s'.ctl = .closed) ∧
     (s'.pc = .dead → s'.ctl = .stopErr ∨ (step P A script s' .stopDisc).isSome = true) ∧
     ((s'.pc = .exiting ∨ s'.pc = .exited ∨ s'.pc = .dead) → s'.pending = [] ∧
       ∀ a s'', step P A script s' a = some s'' → s''.sentLog = s'.sentLog) := by
@@ -377,6 +454,7 @@ theorem stop_bounded (P : Params) (A : Assembler) (script : List Item) (s s' : S
     | stopping => right; simp [step, stepStopDisc, hc, hpc]
     | stopOk => rcases h3.ok_exit hc with h | h <;> rw [hpc] at h <;> cases h
     | stopErr => left; rfl
+    | closed => have := h3.closed_exit hc; rw [hpc] at this; cases this
   · intro hpc
     refine ⟨?_, fun a s'' hs => (no_enqueue_after_exit hpc hs).1⟩
     rcases hpc with hpc | hpc | hpc <;> (simp only [PoolOK, hpc] at h2; exact h2.1)
@@ -391,6 +469,90 @@ example : (run exP exA exScript (init exP)
      .pollPending, .trySend, .cancelNext, .cancelNext, .cancelNext, .reapOne, .reapOne, .reapOne, .iterEnd,
      .checkCancel, .exit]).map (fun s => (s.ctl, s.pc, s.pending.length, stopBound exP)) =
     some (.stopOk, .exited, 0, 18) := by decide
+
+/-! ## The loop terminates only on a stop request -/
+
+/-- **loop_exits_only_on_stop**: transfer errors, timeouts, malformed frames, a full or closed
+channel or an absent receiver never terminate the loop: in every reachable state in which the loop
+has left (or is leaving) `run`, the controller's `stop` rendezvous has completed (`closed` = the
+`close()` that followed that stop has finished too). -/
+theorem loop_exits_only_on_stop (P : Params) (A : Assembler) (script : List Item) (s : State)
+    (h : Reach P A script s) (hpc : s.pc = .exiting ∨ s.pc = .exited) :
+    s.ctl = .stopOk ∨ s.ctl = .closed :=
+  (reach_inv h).ctl.exit_ok hpc
+
+/-- **close_returns_after_exit**: `StreamHandle::close` (also run by `Drop`) returns `Ok` only
+after the loop thread has returned from `run`: it stops a running loop first and then needs the
+channel lock the loop holds for its whole life.  Hence after `close`/`drop` no transfer is in
+flight (and, by `stop_bounded`, nothing is enqueued any more). -/
+theorem close_returns_after_exit (P : Params) (A : Assembler) (script : List Item) (s : State)
+    (h : Reach P A script s) (hc : s.ctl = .closed) : s.pc = .exited ∧ s.pending = [] := by
+  have hi := reach_inv h
+  have hpc := hi.ctl.closed_exit hc
+  have hp := hi.pool
+  simp only [PoolOK, hpc] at hp
+  exact ⟨hpc, hp.1⟩
+
+/-- non-vacuity: stop, loop exit, close -/
+example : ∃ s, Reach exP exA exScript s ∧ (s.ctl, s.pc) = (.closed, .exited) :=
+  ex_reach (steps := [.stopCall, .stopBlock, .checkCancel, .exit, .closeDone])
+    (f := fun s => (s.ctl, s.pc)) (by decide)
+
+private theorem not_dead_step {P : Params} {A : Assembler} {script : List Item} {s s' : State} {a : Step}
+    (hA : ∀ lb tb buf r, A lb tb buf r ≠ .panic) (hp : PoolOK P s) (h : s.pc ≠ .dead)
+    (hs : step P A script s a = some s') : s'.pc ≠ .dead := by
+  cases a <;> simp only [step] at hs
+  case parse =>
+    unfold stepParse at hs
+    split at hs
+    · next hpc =>
+      simp only [PoolOK, hpc] at hp
+      obtain ⟨_, hcur, _, l0, hl0, hle, _, _⟩ := hp
+      split at hs
+      · next l b hlast hc =>
+        rw [hlast] at hl0; injection hl0 with hl0; subst hl0
+        rw [if_pos hle] at hs
+        dsimp only at hs
+        split at hs
+        · injection hs with hs; subst hs; simp
+        · split at hs
+          all_goals first
+            | (injection hs with hs; subst hs; simp; done)
+            | skip
+          next hpanic => exact absurd hpanic (hA _ _ _ _)
+      · next hno =>
+        exfalso
+        cases hc : s.cur with
+        | none => simp [hc] at hcur
+        | some b => exact hno l0 b hl0 hc
+    · cases hs
+  all_goals (step_split <;> simp_all)
+
+/-- **dead_only_by_panic**: the loop thread dies only if the parse/build function panics: for a
+total assembler (C11 `build_total`) no reachable state has a dead loop — in particular the
+`unwrap` of `last_buf_len` and the subtraction `payload_len - last` never panic. -/
+theorem dead_only_by_panic (P : Params) (A : Assembler) (script : List Item) (s : State)
+    (hA : ∀ lb tb buf r, A lb tb buf r ≠ .panic) (h : Reach P A script s) : s.pc ≠ .dead := by
+  induction h with
+  | init => simp [init]
+  | step hr hs ih => exact not_dead_step hA (reach_inv hr).pool ih hs
+
+/-- **running_flag_implies_alive** (the contract C16 assumes of `is_loop_running`): with a total
+assembler, whenever the handle reports a running loop (`cancellation_tx.is_some()`, `ctl =
+running`) the loop thread is alive — it has neither returned nor died. -/
+theorem running_flag_implies_alive (P : Params) (A : Assembler) (script : List Item) (s : State)
+    (hA : ∀ lb tb buf r, A lb tb buf r ≠ .panic) (h : Reach P A script s) (hrun : s.ctl = .running) :
+    s.pc ≠ .exiting ∧ s.pc ≠ .exited ∧ s.pc ≠ .dead := by
+  have hc := (reach_inv h).ctl
+  refine ⟨?_, ?_, dead_only_by_panic P A script s hA h⟩
+  · intro hpc; have := hc.exit_ok (Or.inl hpc); rw [hrun] at this; rcases this with h | h <;> cases h
+  · intro hpc; have := hc.exit_ok (Or.inr hpc); rw [hrun] at this; rcases this with h | h <;> cases h
+
+/-- non-vacuity: `exA` never panics, and a running, alive loop is reachable -/
+example : (∀ lb tb buf r, exA lb tb buf r ≠ .panic) ∧
+    ∃ s, Reach exP exA exScript s ∧ (s.ctl, s.pc) = (.running, .parse) := by
+  refine ⟨?_, ex_reach (steps := exToParse) (f := fun s => (s.ctl, s.pc)) (by decide)⟩
+  intro _ _ _ _ h; cases h
 
 /-- `B(params)` is linear in the number of transfers per frame. -/
 theorem stopBound_linear (P : Params) :
